@@ -83,12 +83,15 @@ def to_kwargs(step):
 _CTX = []
 
 
-def base_state():
+def base_state(root_fields=None):
     from pylatexenc.latexnodes import ParsingState
     if not _CTX:
         _CTX.append(contexts.build('default'))
         _CTX[0].freeze()
-    return ParsingState(s=None, latex_context=_CTX[0])
+    kw = to_kwargs(root_fields) if root_fields else {}
+    if kw.get('math_mode_delimiter') and not kw.get('in_math_mode'):
+        kw.pop('math_mode_delimiter')
+    return ParsingState(s=None, latex_context=_CTX[0], **kw)
 
 
 def alphabet_for(chain):
@@ -172,10 +175,10 @@ def build_chain(chain):
     return parent, ps, fresh
 
 
-def check_chain(chain, strings, res, case_base, label=True):
+def check_chain(chain, strings, res, case_base, label=True, root=None):
     res.case(max(1, len(strings)))
     try:
-        ps0 = base_state()
+        ps0 = base_state(root)
         states = [ps0]
         fields_before = []
         parent_before = {}
@@ -271,6 +274,11 @@ MATH_STEPS = [
     {'latex_inline_math_delimiters': [['!', '!']]},
     {'latex_display_math_delimiters': [['$$', '!!']]},
     {'enable_math': False},
+    {'enable_math': True},
+    {'enable_groups': False},
+    {'enable_groups': True},
+    {'latex_group_delimiters': [['{', '}'], ['[', ']']]},
+    {'latex_group_delimiters': [['{', '}']]},
     {},
 ]
 
@@ -302,6 +310,11 @@ def run_shard(shard, res):
                     chain = [dict(c) for c in chain]
                     check_chain(chain, strings_for(chain, L), res, {'chain': chain})
                     res.label('enumerated-chain')
+                    if len(chain) >= 2:
+                        # same steps, but the first one given to the constructor of the root state
+                        check_chain(chain[1:], strings_for(chain, L), res,
+                                    {'chain': chain[1:], 'root': chain[0]}, root=chain[0])
+                        res.label('root-built-with-fields')
                 i += 1
         res.exhaustive = True
         return
@@ -315,7 +328,8 @@ def run_shard(shard, res):
 def check_case(case, res):
     toks = case.get('tokens') or []
     strings = [toks] if toks else strings_for(case['chain'], 2)
-    check_chain(case['chain'], strings, res, {'chain': case['chain']}, label=False)
+    check_chain(case['chain'], strings, res, {'chain': case['chain'], 'root': case.get('root')},
+                label=False, root=case.get('root'))
 
 
 def minimise(case, key):
@@ -326,6 +340,6 @@ def minimise(case, key):
     c = dict(case)
     if c.get('tokens'):
         c['tokens'] = ddmin(c['tokens'], lambda t: holds(dict(c, tokens=list(t))))
-    chain = ddmin(c['chain'], lambda ch: holds(dict(c, chain=list(ch))))
-    c['chain'] = chain
+    if len(c['chain']) > 1:
+        c['chain'] = ddmin(c['chain'], lambda ch: holds(dict(c, chain=list(ch))))
     return c
